@@ -337,6 +337,30 @@ def collect_formats(schema, out=None):
     return out
 
 
+def outside_additional_properties_model(d):
+    """True when some node of the dump is a composition element (`Not`/`AnyOf`/`OneOf`/`AllOf`) that forbids
+    additional properties and declares a property or pattern property whose element is `Nothing()`.
+
+    The real `AdditionalProperties` validator asks `key in __properties__`, i.e. `properties[key].element != Nothing()`:
+    a key whose only declaration is a `Nothing()` element counts as undeclared.  On elements that construct through
+    `Properties` the construction step rejects that key anyway, so the model's validator (which counts every declared
+    or pattern-matched key as allowed) agrees with the code; on composition elements, which never construct through
+    `Properties`, it does not.  Such configurations are reachable only by assigning object keywords to a composition
+    element after construction; they are modelled-not-verified (DESIGN 15.6) and the correspondence skips them."""
+    if isinstance(d, list):
+        return any(outside_additional_properties_model(x) for x in d)
+    if not isinstance(d, dict):
+        return False
+    if d.get("cls") in ("Not", "AnyOf", "OneOf", "AllOf"):
+        kw = d.get("kw") or {}
+        if kw.get("addPropsB") is False and "addProps" not in d:
+            for group in ("props", "patProps"):
+                for pair in d.get(group) or []:
+                    if isinstance(pair, list) and len(pair) == 2 and isinstance(pair[1], dict) and pair[1].get("cls") == "Nothing":
+                        return True
+    return any(outside_additional_properties_model(v) for v in d.values())
+
+
 def elem_patterns_formats(e, pats=None, fmts=None, seen=None):
     """Patterns and formats of a real element tree."""
     from statham.serializers.orderer import get_children
